@@ -190,7 +190,25 @@ pub fn run_case(rt: &tokio::runtime::Runtime, base: &State, c: &[u64]) -> Vec<u6
     let Some(case) = parse(c) else { return r };
     let psk: Option<&'static HeaderValue> = case.psk.as_ref().and_then(|p| HeaderValue::from_bytes(p).ok()).map(|v| &*Box::leak(Box::new(v)));
     let state_b = base.clone().with_ws_psk(psk).obfs(case.obfs).with_backend(Some(backend));
-    match rt.block_on(backend_variant(&state_b, &case, r[0])) {
+    if let Some(bad) = rt.block_on(backend_variant(&state_b, &case, r[0])) {
+        return bad;
+    }
+    // with a custom not-found response configured: the same classes, and every fallback answer is that response
+    let state_nf = base.clone().with_ws_psk(psk).obfs(case.obfs).with_not_found_resp("nf-custom-7f3a");
+    let nf = rt.block_on(async {
+        let req = build(&case, &case.path)?;
+        let unk = build(&case, b"/__no_such_path__")?;
+        let a = call(&state_nf, req).await?;
+        let c = class_of(&a);
+        let same = if c == 3 {
+            let b = call(&state_nf, unk).await;
+            u64::from(a.0 == 404 && a.2 == b"nf-custom-7f3a" && b.as_ref() == Some(&a))
+        } else {
+            1
+        };
+        if c == r[0] && same == 1 { None } else { Some(vec![8, r[0], c, same]) }
+    });
+    match nf {
         Some(bad) => bad,
         None => r,
     }
